@@ -78,14 +78,14 @@ structure State where
   nst  : Nat → NSt
   hist : List Ev
   clock : Nat
-  cs    : Nat → Option Nat     -- begin time of thread t's open read-side section
+  cs    : Nat → Nat            -- begin time of thread t's open read-side section (0 = none)
   gpCur : Option Nat           -- start time of the grace period in flight
   gpDone : Nat                 -- latest start time of a completed grace period
 
 def init : State :=
   { head := 0, next := fun _ => 0, buf := fun _ => [], pc := fun _ => .idle, lock := none,
     cur := fun _ => 0, ret := fun _ => .void, abs := [], priv := fun _ => [],
-    nst := fun _ => .free, hist := [], clock := 1, cs := fun _ => none, gpCur := none, gpDone := 0 }
+    nst := fun _ => .free, hist := [], clock := 1, cs := fun _ => 0, gpCur := none, gpDone := 0 }
 
 def bufVal : List (Nat × Nat) → Nat → Option Nat
   | [], _ => none
@@ -103,7 +103,7 @@ def rd (s : State) (t n : Nat) : Nat :=
 /-- the thread may call `__cds_lfs_pop` -/
 def mayPop (c : Cfg) (s : State) (t : Nat) : Prop :=
   (c.scheme = .mutex ∧ s.lock = some t) ∨ (c.scheme = .single ∧ t = c.consumer) ∨
-  (c.scheme = .rcu ∧ s.cs t ≠ none) ∨ c.scheme = .unprotected
+  (c.scheme = .rcu ∧ s.cs t ≠ 0) ∨ c.scheme = .unprotected
 instance (c s t) : Decidable (mayPop c s t) := by unfold mayPop; infer_instance
 
 /-- the thread may call `__cds_lfs_pop_all` (no read-side section needed in the RCU scheme) -/
@@ -162,15 +162,15 @@ def step (c : Cfg) (s : State) : Label → Option State
     | (n, v) :: rest => some { s with next := upd s.next n v, buf := upd s.buf t rest }
     | [] => none
   | .lock t =>
-    if c.scheme = .mutex ∧ s.pc t = .idle ∧ s.lock = none then some { s with lock := some t } else none
+    if c.scheme = .mutex ∧ s.pc t = .idle ∧ s.lock = none ∧ s.buf t = [] then some { s with lock := some t } else none
   | .unlock t =>
-    if c.scheme = .mutex ∧ s.pc t = .idle ∧ s.lock = some t then some { s with lock := none } else none
+    if c.scheme = .mutex ∧ s.pc t = .idle ∧ s.lock = some t ∧ s.buf t = [] then some { s with lock := none } else none
   | .rlock t =>
-    if s.pc t = .idle ∧ t < c.n ∧ s.cs t = none then
-      some { s with cs := upd s.cs t (some s.clock), clock := s.clock + 1 }
+    if s.pc t = .idle ∧ t < c.n ∧ s.cs t = 0 then
+      some { s with cs := upd s.cs t s.clock, clock := s.clock + 1 }
     else none
   | .runlock t =>
-    if s.pc t = .idle ∧ s.cs t ≠ none then some { s with cs := upd s.cs t none } else none
+    if s.pc t = .idle ∧ s.cs t ≠ 0 then some { s with cs := upd s.cs t 0 } else none
   | .gpStart =>
     match s.gpCur with
     | none => some { s with gpCur := some s.clock, clock := s.clock + 1 }
@@ -179,7 +179,7 @@ def step (c : Cfg) (s : State) : Label → Option State
     match s.gpCur with
     | some a =>
       -- GpSpec: every section that began before the grace period started has ended
-      if (∀ i, i < c.n → ∀ b, s.cs i = some b → a ≤ b) then
+      if (∀ i, i < c.n → s.cs i ≠ 0 → a ≤ s.cs i) then
         some { s with gpCur := none, gpDone := max s.gpDone a }
       else none
     | none => none
